@@ -33,6 +33,7 @@ func (c *clipper64) ExecutePolyTree64(clipType ClipType, fillRule FillRule, poly
 func (c *clipper64) ExecuteOC(clipType ClipType, fillRule FillRule, solutionClosed, solutionOpen *Paths64) bool {
 	*solutionClosed = (*solutionClosed)[:0]
 	*solutionOpen = (*solutionOpen)[:0]
+	c.usingPolyTree = false // an earlier tree execution must not change how paths are built
 
 	success := c.clipperBase.execute(clipType, fillRule, solutionClosed, solutionOpen)
 
